@@ -14,38 +14,43 @@ theorem filter_unfold (c : Ctx) (gs : Fields) :
     eval c (.doc [("$filter", .doc gs)]) =
       (if gs.any (fun kv => !(["input", "cond", "as"].contains kv.1)) = true then .error .opFail
        else if (!(dhas "input" gs) || !(dhas "cond" gs)) = true then .error .opFail
-       else (evalAt c "input" gs).bind (fun r =>
-         match r with
-         | none | some .null => .ok (some .null)
-         | some (.arr items) =>
-           match asName gs with
-           | none => unmodelled
-           | some name =>
-             (filterItems (fun item => evalAt (c.bind name item) "cond" gs) items).bind
-               (fun r => .ok (some (.arr r)))
-         | some v => iterErr v)) := by
-  have h1 : classify "$filter" = .array := by decide
-  have h2 := mode_shaped_doc "$filter" gs (by simp)
-  simp only [eval, List.length_singleton, Nat.lt_irrefl, decide_false, Bool.false_and,
-    Bool.false_eq_true, if_false, evalDoc, h1, h2, evalOp, if_true]
+       else match asName gs with
+         | none => .error .opFail
+         | some name =>
+           if (!(validVarName name)) = true then .error .opFail
+           else (evalAt c "input" gs).bind (fun r =>
+             match r with
+             | none | some .null => .ok (some .null)
+             | some (.arr items) =>
+               (filterItems (fun item => evalAt (c.bind name item) "cond" gs) items).bind
+                 (fun r => .ok (some (.arr r)))
+             | some v => iterErr v)) := by
+  rw [eval_shaped c "$filter" _ (by decide) (by decide) (by decide) (by decide)
+    (Or.inl (by decide)) (mode_shaped_doc "$filter" gs (by simp))]
+  simp only [evalOp, if_true]
   simp only [show ¬ ("$filter" = "$let") by decide, show ¬ ("$filter" = "$map") by decide, if_false]
   split
   · rfl
   · split
     · rfl
-    · simp only [bind, Except.bind]
-      cases evalAt c "input" gs with
-      | error e => rfl
-      | ok r =>
-        cases r with
-        | none => rfl
-        | some v => cases v <;> rfl
+    · cases asName gs with
+      | none => rfl
+      | some name =>
+        simp only
+        split
+        · rfl
+        · simp only [bind, Except.bind]
+          cases evalAt c "input" gs with
+          | error e => rfl
+          | ok r =>
+            cases r with
+            | none => rfl
+            | some v => cases v <;> rfl
 
 /-- `$filter` -/
 theorem filter_case (c : Ctx) (root : Val) (env : Env) (hr : EnvRel c root env) (gs : Fields)
     (hsub : AllSubFields Agrees gs)
-    (hre : (match asVar gs with | .ok _ => [] | .error _ => ["laxargs"]) ++
-        rAt root env "input" gs ++
+    (hre : rAt root env "input" gs ++
         (match asVar gs, sAt root env "input" gs with
          | .ok name, .ok (some (.arr items)) =>
            (items.map (fun item => rAt root ((name, some item) :: env) "cond" gs)).flatten
@@ -63,8 +68,7 @@ theorem filter_case (c : Ctx) (root : Val) (env : Env) (hr : EnvRel c root env) 
             pure (some (.arr ((rs.filter (fun r => Spec.toBool r.2)).map (·.1))))
           | some _ => .error .opFail) = .ok res) :
     eval c (.doc [("$filter", .doc gs)]) = .ok res := by
-  obtain ⟨h12, h3⟩ := append_nil2 hre
-  obtain ⟨h1, h2⟩ := append_nil2 h12
+  obtain ⟨h2, h3⟩ := append_nil2 hre
   split at hres
   · cases hres
   · rename_i hcond
@@ -87,7 +91,7 @@ theorem filter_case (c : Ctx) (root : Val) (env : Env) (hr : EnvRel c root env) 
       have e1 := at_agree c root env hr "input" gs vin hvin hsub h2
       rw [filter_unfold]
       simp only [hkeys, hcond'.1.1, hcond'.1.2, Bool.not_true, Bool.or_self, Bool.false_eq_true,
-        if_false, e1, asVar_asName gs name hav]
+        if_false, e1, (asVar_asName gs name hav).1, (asVar_asName gs name hav).2]
       cases hin : sAt root env "input" gs with
       | error e => simp [hin] at hres
       | ok inp =>
